@@ -340,7 +340,18 @@ func c04bCheck(c *c04bCase, o *c04bObs) (string, string) {
 			class := ""
 			firstW := o.itemW[o.reqItems[r][0]]
 			b := o.batches[foreign[0]]
-			if len(foreign) == 1 && foreign[0] < first && c.Max > 0 && int64(b.weight+firstW) > c.Max {
+			tagged := len(c.Poison) == 1 && c.Poison[0] == -1
+			// tagged run: `foreign` is exactly the set of batches whose outcome reached the callback; with explicit failure sets
+			// it is every failed batch, of which at least one reached it
+			n := 0
+			for _, bi := range foreign {
+				fb := o.batches[bi]
+				if bi < first && c.Max > 0 && int64(fb.weight+firstW) > c.Max {
+					n++
+					b = fb
+				}
+			}
+			if (tagged && len(foreign) == 1 && n == 1) || (!tagged && n >= 1) {
 				class = ":first-item-did-not-fit-the-current-batch"
 			}
 			return "batcher:error-misattributed" + class, fmt.Sprintf("%s: request %d (items %v, in batches %v) received the outcome of batch(es) %v %v, which hold no part of it: callback reported %v", desc, r, o.reqItems[r], keys(in), foreign, b.ids, got)
